@@ -457,15 +457,27 @@ fn pretty_print_rustfmt(tokens: TokenStream) -> String {
         .stderr(Stdio::null())
         .spawn()
     {
-        let stdin = proc.stdin.as_mut().unwrap();
-        stdin.write_all(value.as_bytes()).unwrap();
+        // The formatter may exit without reading its input.
+        // Treat a failed write like any other formatter failure.
+        let write_ok = proc
+            .stdin
+            .take()
+            .is_some_and(|mut stdin| stdin.write_all(value.as_bytes()).is_ok());
 
-        let output = proc.wait_with_output().unwrap();
-        if output.status.success() {
-            return String::from_utf8(output.stdout).unwrap();
+        // Always wait for the process to avoid leaving a zombie behind.
+        if let Ok(output) = proc.wait_with_output() {
+            if write_ok && output.status.success() {
+                if let Ok(formatted) = String::from_utf8(output.stdout) {
+                    // The generated module is never empty.
+                    if !formatted.trim().is_empty() {
+                        return formatted;
+                    }
+                }
+            }
         }
     }
-    value.to_string()
+    // Fall back to the unformatted code if rustfmt is missing or fails.
+    value
 }
 
 fn indexed_name_to_ident(name: &str, index: u32) -> Ident {
